@@ -4,6 +4,8 @@ package main
 // Unicode-heavy.  Semantics: documented behaviour on ASCII data.
 
 import (
+	"strings"
+
 	"golang.org/x/tools/go/ssa"
 )
 
@@ -264,6 +266,20 @@ func init() {
 		aOff := tt.Bin(OpAdd, i, sep.Len)
 		after := StrV{Arr: s.Arr, Off: tt.Ite(found, tt.Bin(OpAdd, s.Off, aOff), s.Off), Len: tt.Ite(found, tt.Bin(OpSub, s.Len, aOff), tt.Const(0, 64))}
 		return TupleV{before, after, found}
+	}))
+	reg("strings.Fields", simple(func(st *State, a []Value) Value {
+		cs, ok := st.concreteString(a[0].(StrV))
+		if !ok {
+			panic(unsupported("strings.Fields on a symbolic string"))
+		}
+		fs := strings.Fields(cs)
+		arr := &ArrayV{E: make([]Value, len(fs))}
+		for i, f := range fs {
+			arr.E[i] = st.constString(f)
+		}
+		o := st.newObject(arr, nil, "strings.Fields")
+		n := st.tt.Const(uint64(len(fs)), 64)
+		return SliceV{Arr: Ptr{Obj: o}, Off: st.tt.Const(0, 64), Len: n, Cap: n}
 	}))
 	// strings.Builder: executed from SSA except for the copy check
 	reg("(*strings.Builder).copyCheck", simple(func(st *State, a []Value) Value { return nil }))
